@@ -2,7 +2,7 @@
    edge-triggered epoll ready list with concurrent senders; scheduler = arbitrary label list). *)
 From Coq Require Import List Arith Bool ZArith.
 From IPC Require Import U64 Params RSet RSetProofs.
-From IPC Require K Prog Ideal Api ApiProofs ApiInv.
+From IPC Require K Prog Ideal Api ApiProofs ApiInv ApiSelect.
 Import ListNotations.
 
 (* the batch capacity of the model is the one in the source (GENERATED constant) *)
@@ -64,7 +64,7 @@ Proof. vm_compute. reflexivity. Qed.
 
 (* ---- the public IpcReceiverSet inside whole-API programs (model: Api.v; proofs: ApiInv.v) ---- *)
 Module ApiLevel.
-Import K Prog Ideal Api ApiProofs ApiInv.
+Import K Prog Ideal Api ApiProofs ApiInv ApiSelect.
 Local Open Scope nat_scope.
 
 (* serving one member of a set: every queued message is reported exactly once, in queue order, tagged with the member's index
@@ -89,4 +89,28 @@ Theorem C06_api_add_fresh : forall s sh rh ms c,
   snd (a_step s (ASetAdd sh rh)) = QAdded (length ms).
 Proof. exact add_returns_fresh_index. Qed.
 Print Assumptions C06_api_add_fresh.
+(* the whole set, any number of members: one round of select (repeated until nothing is pending) reports, member by member in
+   index order, every queued message once and in queue order, then the member's closure iff no reference to its sending end
+   exists - all judged in the state BEFORE the round: serving one member neither loses, duplicates nor reorders anything of another *)
+Theorem C06_api_select_events : forall s sh ms, a_inv s -> lookup (ah s) sh = Some (OSet ms) -> NoDup (member_chans ms) ->
+  exists evs, snd (a_step s (ASelectAll sh)) = QSelect evs /\ map proj_ev evs = member_events (ak s) 0 ms.
+Proof. exact api_select_events. Qed.
+Print Assumptions C06_api_select_events.
+
+(* underneath: releasing the receiving end of a channel whose queue is empty kills at most that channel and changes nothing else *)
+Theorem C06_api_close_empty_frame : forall k c ch, k_wf k -> k_stable k ->
+  nth_error (chans k) c = Some ch -> dead ch = false -> q ch = [] ->
+  (forall c', c' <> c -> get_chan (k_close k (RR c)) c' = get_chan k c') /\
+  (forall x, x <> RR c -> refs (k_close k (RR c)) x = refs k x).
+Proof. exact k_close_RR_empty_frame. Qed.
+Print Assumptions C06_api_close_empty_frame.
+
+Example C06_api_ex :
+  let s := fst (a_run a_init [ANew; ANew; ASetNew; ASetAdd 4 1; ASetAdd 4 3; ASend 0 10%Z []; ASend 2 (-1)%Z [XTx 0]; ASend 2 20%Z []; ADrop 2]) in
+  a_inv s /\ lookup (ah s) 4 = Some (OSet [Some 0; Some 1]) /\ NoDup (member_chans [Some 0; Some 1]) /\
+  member_events (ak s) 0 [Some 0; Some 1] = [PMsg 0 10%Z []; PBad 1; PMsg 1 20%Z []; PClosed 1].
+Proof.
+  split; [apply a_inv_run|]. split; [vm_compute; reflexivity|]. split; [|vm_compute; reflexivity].
+  vm_compute. constructor; [intros [H|[]]; discriminate|]. constructor; [intros []|constructor].
+Qed.
 End ApiLevel.
